@@ -347,6 +347,10 @@ def build_query(ctx: Ctx, ob, extra_axioms=()):
     neg = _skolemize_neg(ob.goal)
     goal = z3.Not(z3.And(*neg)) if neg else z3.BoolVal(False)  # empty NNF goal = not(goal) is true
     base = fs + neg + list(extra_axioms)
+    if getattr(ob, "algebra_only", False):
+        # quantified hypotheses and reduction lemmas are noise for a pure (non-linear) arithmetic goal
+        fs = [h for h in fs if not _has_quantifiers([h])]
+        return fs + list(extra_axioms), goal
     reds = reds_in(ctx, base)
     ax = []
     for r in reds:
